@@ -195,7 +195,7 @@ class _NativeJudge:
 
 
 class HolderClone(_NativeJudge, Contract):
-    scenarios = ("write-on-clone-person-variable", "delete-on-clone-person-variable", "disk-backed-delete-on-clone", "eternal-variable", "rewrite-on-clone-same-period")
+    scenarios = ("write-on-clone-person-variable", "delete-on-clone-person-variable", "disk-backed-delete-on-clone", "eternal-variable", "rewrite-on-clone-same-period", "set-input-again-on-clone")
     name = f"{HOLDER}.clone"
     prop = ("C13",)
     top_level = True
